@@ -62,7 +62,8 @@ def run_scenario(args):
         out['encode_s'] = round(time.time() - t0, 2)
         out['stats'] = dict(nodes=nodes(), steps=w.m.stats['steps'], blocks=w.m.stats['blocks'], stmts=w.m.stats['stmts'],
                             sites=len(w.m.stats['sites']), pruned=w.m.stats.get('pruned', 0), prune_checks=sol.nchecks,
-                            prune_time=round(sol.time, 2), threads=len(w.m.threads) - 1, actvars=len(w.actvars))
+                            prune_time=round(sol.time, 2), threads=len(w.m.threads) - 1, actvars=len(w.actvars),
+                            alloc_split=w.m.stats.get('alloc_split', 0), alloc_max=w.m.stats.get('alloc_max', 0))
         out['functions'] = sorted(set(w.m.fn_of(cp).name for (tid, (cp, b, ph)) in w.m.stats['sites'] if cp != 'END'))[:400]
         qt = spec.get('query_timeout', 300 if tier == 'quick' else 1800)
         def ask(name, e):
@@ -96,6 +97,7 @@ def run_scenario(args):
         #    and the oracle is asked again, so that a different violation of the same oracle is still found.
         from .known import PREDICATES
         known = [f for f in load_known().get('findings', []) if f.get('status') == 'known' and f['property'] == spec.get('prop')]
+        if os.environ.get('VERIF_NO_KNOWN') == '1': known = []      # debugging aid: report listed findings like any other violation
         allclauses = []
         for oname in spec['oracles']:
             cl = [(n, g) for n, g in ORACLES[oname](w) if g is not FALSE]
